@@ -11,13 +11,11 @@
 use crate::errors::DurationError;
 use crate::parser::Token;
 use crate::{
-    Duration, Epoch, HifitimeError, ParsingError, TimeScale, Unit, DAYS_PER_YEAR_NLD,
-    HIFITIME_REF_YEAR, NANOSECONDS_PER_MICROSECOND, NANOSECONDS_PER_MILLISECOND,
-    NANOSECONDS_PER_SECOND_U32,
+    Duration, Epoch, HifitimeError, ParsingError, TimeScale, Unit, DAYS_PER_CENTURY_I64,
+    DAYS_PER_YEAR_NLD, HIFITIME_REF_YEAR, NANOSECONDS_PER_DAY, NANOSECONDS_PER_HOUR,
+    NANOSECONDS_PER_MINUTE, NANOSECONDS_PER_SECOND, NANOSECONDS_PER_SECOND_U32,
 };
 use core::str::FromStr;
-
-use super::div_rem_f64;
 
 impl Epoch {
     pub(crate) fn compute_gregorian(
@@ -25,90 +23,56 @@ impl Epoch {
         time_scale: TimeScale,
     ) -> (i32, u8, u8, u8, u8, u8, u32) {
         let duration_wrt_ref = duration + time_scale.gregorian_epoch_offset();
-        let sign = duration_wrt_ref.signum();
-        let (days, hours, minutes, seconds, milliseconds, microseconds, nanos) = if sign < 0 {
-            // For negative epochs, the computation of days and time must account for the time as it'll cause the days computation to be off by one.
-            let (_, days, hours, minutes, seconds, milliseconds, microseconds, nanos) =
-                duration_wrt_ref.decompose();
+        // Count the whole days since the reference (floored, i.e. negative before it) and the time elapsed in that day
+        // on integers: one century is exactly 36525 days and the nanosecond part always counts forward, whereas a
+        // floating point number of days cannot resolve nanoseconds.
+        let (centuries, nanoseconds) = duration_wrt_ref.to_parts();
+        let days =
+            i64::from(centuries) * DAYS_PER_CENTURY_I64 + (nanoseconds / NANOSECONDS_PER_DAY) as i64;
+        let mut time_ns = nanoseconds % NANOSECONDS_PER_DAY;
+        let hours = time_ns / NANOSECONDS_PER_HOUR;
+        time_ns %= NANOSECONDS_PER_HOUR;
+        let minutes = time_ns / NANOSECONDS_PER_MINUTE;
+        time_ns %= NANOSECONDS_PER_MINUTE;
+        let seconds = time_ns / NANOSECONDS_PER_SECOND;
+        let nanos = time_ns % NANOSECONDS_PER_SECOND;
 
-            // Recompute the time since we count backward and not forward for negative durations.
-            let time = Duration::compose(
-                0,
-                0,
-                hours,
-                minutes,
-                seconds,
-                milliseconds,
-                microseconds,
-                nanos,
-            );
-
-            // Compute the correct time.
-            let (_, _, hours, minutes, seconds, milliseconds, microseconds, nanos) =
-                (24 * Unit::Hour - time).decompose();
-
-            let days_f64 = if time > Duration::ZERO {
-                -((days + 1) as f64)
-            } else {
-                -(days as f64)
-            };
-
-            (
-                days_f64,
-                hours,
-                minutes,
-                seconds,
-                milliseconds,
-                microseconds,
-                nanos,
-            )
-        } else {
-            // For positive epochs, the computation of days and time is trivally the decomposition of the duration.
-            let (_, days, hours, minutes, seconds, milliseconds, microseconds, nanos) =
-                duration_wrt_ref.decompose();
-            (
-                days as f64,
-                hours,
-                minutes,
-                seconds,
-                milliseconds,
-                microseconds,
-                nanos,
-            )
-        };
-
-        let (mut year, mut days_in_year) = div_rem_f64(days, DAYS_PER_YEAR_NLD);
-        year += HIFITIME_REF_YEAR;
+        let days_per_year = DAYS_PER_YEAR_NLD as i64;
+        let mut year = HIFITIME_REF_YEAR + days.div_euclid(days_per_year) as i32;
+        let mut days_in_year = days.rem_euclid(days_per_year);
 
         // Base calculation was on 365 days, so we need to remove one day per leap year
         if year >= HIFITIME_REF_YEAR {
             for y in HIFITIME_REF_YEAR..year {
                 if is_leap_year(y) {
-                    days_in_year -= 1.0;
+                    days_in_year -= 1;
                 }
             }
-            if days_in_year < 0.0 {
+            while days_in_year < 0 {
                 // We've underflowed the number of days in a year because of the leap years
                 year -= 1;
-                days_in_year += DAYS_PER_YEAR_NLD;
+                days_in_year += days_per_year;
                 // If we had incorrectly removed one day of the year in the previous loop, fix it here.
                 if is_leap_year(year) {
-                    days_in_year += 1.0;
+                    days_in_year += 1;
                 }
             }
         } else {
             for y in year..HIFITIME_REF_YEAR {
                 if is_leap_year(y) {
-                    days_in_year += 1.0;
+                    days_in_year += 1;
                 }
             }
             // Check for greater than or equal because the days are still zero indexed here.
-            if (days_in_year >= DAYS_PER_YEAR_NLD && !is_leap_year(year))
-                || (days_in_year >= DAYS_PER_YEAR_NLD + 1.0 && is_leap_year(year))
+            while (days_in_year >= days_per_year && !is_leap_year(year))
+                || (days_in_year >= days_per_year + 1 && is_leap_year(year))
             {
                 // We've overflowed the number of days in a year because of the leap years
+                days_in_year -= days_per_year;
+                if is_leap_year(year) {
+                    days_in_year -= 1;
+                }
                 year += 1;
-                days_in_year -= DAYS_PER_YEAR_NLD;
             }
         }
 
@@ -125,7 +89,7 @@ impl Epoch {
         };
 
         // Directly compute the day from the computed month, and ensure that day counter is one indexed.
-        let day = days_in_year - cumul_days[month - 1] as f64 + 1.0;
+        let day = days_in_year - i64::from(cumul_days[month - 1]) + 1;
 
         (
             year,
@@ -134,9 +98,7 @@ impl Epoch {
             hours as u8,
             minutes as u8,
             seconds as u8,
-            (nanos
-                + microseconds * NANOSECONDS_PER_MICROSECOND
-                + milliseconds * NANOSECONDS_PER_MILLISECOND) as u32,
+            nanos as u32,
         )
     }
 
